@@ -14,7 +14,9 @@
 // parameter sets with identical limbs, and two wf parameter sets for the same modulus compare equal (needed for `debug_assert_eq!(params, ..)`).
 //
 // FINDING F13 carries over unchanged (same expression `max.rem(m).wrapping_add(1)`): for the modulus 1 the constructors yield one == 1, not
-// R mod 1 == 0, so they give `wf` only for m != 1 (`bparams_for`); every other field is right for every odd m.
+// R mod 1 == 0, so they give `wf` only for m != 1 (`bparams_for`); every other field is right for every odd m. Checked natively (128 bit,
+// m = 1): `BoxedMontyForm::one(params).retrieve()` == 1 (>= m; the fixed-width form returns 0 here), `one != zero`, and `as_montgomery()` /
+// `to_montgomery()` panic in debug builds on `debug_assert!(self.montgomery_form < self.params.modulus)`; `new` and `new_vartime` agree.
 //
 // body (proved): BoxedMontyMultiplier::{mul_assign, mul, square_assign, square (AMM + ONE conditional subtraction => canonical, needs one operand
 //   < m), mul_by_one, square_amm}; convert_to_montgomery; BoxedMontyParams::{new, new_vartime (see LIMITATION), modulus, bits_precision};
@@ -118,7 +120,8 @@ pub struct BoxedMontyForm {
 //@@ end
 
 // ---- `#[derive(PartialEq, Eq)] struct BoxedMontyParams` (hand-written, ASSUMED): field-wise `==`. The fields are compared with
-// `BoxedUint::eq`, which is VALUE equality (ct_eq over zero-extended limbs): parameter sets of different precision can compare equal.
+// `BoxedUint::eq`, which is VALUE equality (ct_eq over zero-extended limbs), so `==` alone does not pin the precision (in practice r2, r3 and
+// the clamped leading-zero count differ between precisions except for the modulus 1; checked natively: params(3 @ 64 bit) != params(3 @ 128 bit)).
 pub open spec fn params_veq(a: &BoxedMontyParams, b: &BoxedMontyParams) -> bool {
     a.modulus.0.v() == b.modulus.0.v() && a.one.v() == b.one.v() && a.r2.v() == b.r2.v() && a.r3.v() == b.r3.v()
         && a.mod_neg_inv.0 == b.mod_neg_inv.0 && a.mod_leading_zeros == b.mod_leading_zeros
